@@ -218,3 +218,21 @@ func TopFrames(dump string, n int) string {
 	}
 	return strings.Join(fns, "<-")
 }
+
+// InUseStreams parses IDGenerator.String() (hex words, most significant bit = lowest
+// stream of the word) into the list of reserved stream ids, without the reserved id 0.
+func InUseStreams(state string) []int {
+	var out []int
+	for b, w := range strings.Fields(state) {
+		var v uint64
+		fmt.Sscanf(w, "%x", &v)
+		for j := 0; j < 64; j++ {
+			if v&(1<<(63-uint(j))) != 0 {
+				if id := b*64 + j; id != 0 {
+					out = append(out, id)
+				}
+			}
+		}
+	}
+	return out
+}
